@@ -8,6 +8,10 @@ var verifHarnesses = map[string]func(){
 	"VerifC06Walk": VerifC06Walk,
 	"VerifC06Step": VerifC06Step,
 	"VerifC07Walk": VerifC07Walk,
+	"VerifC05Walk": VerifC05Walk,
+	"VerifC12Walk": VerifC12Walk,
+	"VerifC12Updatable": VerifC12Updatable,
+	"VerifC05Split": VerifC05Split,
 	"VerifC07Step": VerifC07Step,
 	"VerifC07Compile": VerifC07Compile,
 }
